@@ -136,7 +136,7 @@ func (d *Decls) declare(key, text string) {
 func (d *Decls) typeID(t types.Type) int {
 	k := "?"
 	if t != nil {
-		k = types.TypeString(t, nil)
+		k = types.TypeString(types.Unalias(t), nil)
 	}
 	if id, ok := d.typeIDs[k]; ok {
 		return id
